@@ -4,5 +4,5 @@ seed="$1"; shift
 props="$@"; [ -z "$props" ] && props=$(python3 -c "import json;print(json.load(open('/verif/seeded/$seed/meta.json'))['property'])")
 git -C /repo diff --quiet || { echo "/repo has uncommitted changes"; exit 2; }
 git -C /repo apply --whitespace=nowarn /verif/seeded/$seed/patch.diff || { echo "patch does not apply"; exit 2; }
-for p in $props; do (cd /verif && ./check $p; echo "seed=$seed property=$p exit=$?"); done
+for p in $props; do cp /verif/evidence/$p.json /tmp/evidence.$p.$$ 2>/dev/null; (cd /verif && ./check $p; echo "seed=$seed property=$p exit=$?"); cp /verif/evidence/$p.json /verif/seeded/$seed/evidence.$p.json 2>/dev/null; [ -f /tmp/evidence.$p.$$ ] && mv /tmp/evidence.$p.$$ /verif/evidence/$p.json; done
 git -C /repo checkout -- .
